@@ -127,8 +127,10 @@ func genCase(seed int64, idx int, o genOpts) *Case {
 			}
 			st := Step{Kind: sAddPart, Coll: ci, Part: pi}
 			if !o.raceAddPart {
+				// registration settled: every shard's stream has processed the warm-up pack #0 (its handler holds
+				// the collection record by then), as when partitions are added well after the collection started
 				for _, sh := range c.Colls[ci].Shards {
-					st.After = append(st.After, regDep(sh.SrcV))
+					st.After = append(st.After, packDep(sh.SrcP, 0, ci))
 				}
 			}
 			addPartStep[[2]int{ci, pi}] = len(c.Steps)
@@ -174,8 +176,15 @@ func genCase(seed int64, idx int, o genOpts) *Case {
 		for k := 0; k < nPacks; k++ {
 			end := hts(baseMs+uint64(k+1)*stepMs, 0)
 			pp := PPack{BeginTs: prev, EndTs: end, ZeroBegin: k == 0 && rnd.Intn(2) == 0}
-			if k == 0 && lastInitial >= 0 {
+			if k == 1 && lastInitial >= 0 {
 				pp.After = append(pp.After, stepDep(lastInitial))
+			}
+			if k == 0 {
+				for _, ci := range order {
+					if ci != lateColl {
+						pp.After = append(pp.After, stepDep(startStep[ci]))
+					}
+				}
 				for _, ci := range order {
 					if ci == lateColl {
 						continue
@@ -187,6 +196,13 @@ func genCase(seed int64, idx int, o genOpts) *Case {
 					}
 				}
 			}
+			if lateColl >= 0 && k == lateAt {
+				for _, sh := range c.Colls[lateColl].Shards {
+					if sh.SrcP == p {
+						pp.After = append(pp.After, regDep(sh.SrcV))
+					}
+				}
+			}
 			// message timestamps inside (prev, end]: a few distinct values, reused for equal-ts runs
 			var tsPool []uint64
 			for j := 0; j < 3; j++ {
@@ -194,7 +210,7 @@ func genCase(seed int64, idx int, o genOpts) *Case {
 			}
 			sort.Slice(tsPool, func(i, j int) bool { return tsPool[i] < tsPool[j] })
 			for ci, col := range c.Colls {
-				if ci == lateColl && k < lateAt {
+				if (ci == lateColl && k <= lateAt) || k == 0 { // pack #0 is a warm-up tick-only pack
 					continue
 				}
 				for si, sh := range col.Shards {
@@ -203,9 +219,6 @@ func genCase(seed int64, idx int, o genOpts) *Case {
 					}
 					if at, ok := dropCollAt[ci]; ok && k > at[si] {
 						continue
-					}
-					if ci == lateColl && k == lateAt {
-						pp.After = append(pp.After, regDep(sh.SrcV))
 					}
 					n := 0
 					switch q := rnd.Intn(10); {
@@ -278,16 +291,22 @@ func genCase(seed int64, idx int, o genOpts) *Case {
 		for pi := range c.Colls[lateColl].Parts {
 			ap := Step{Kind: sAddPart, Coll: lateColl, Part: pi, Async: true, After: []Dep{stepDep(si)}}
 			for _, sh := range c.Colls[lateColl].Shards {
-				ap.After = append(ap.After, regDep(sh.SrcV))
+				if o.raceAddPart {
+					ap.After = append(ap.After, regDep(sh.SrcV))
+				} else {
+					ap.After = append(ap.After, packDep(sh.SrcP, lateAt, lateColl))
+				}
 			}
 			addPartStep[[2]int{lateColl, pi}] = len(c.Steps)
 			c.Steps = append(c.Steps, ap)
 		}
-		// data of the late collection (pack lateAt on its pchannels) waits for its partitions
+		// pack lateAt is the late collection's warm-up (no data for it); its data (from lateAt+1) waits for its partitions
 		for _, sh := range c.Colls[lateColl].Shards {
-			pk := &c.Scripts[sh.SrcP][lateAt]
-			for pi := range c.Colls[lateColl].Parts {
-				pk.After = append(pk.After, stepDep(addPartStep[[2]int{lateColl, pi}]))
+			if lateAt+1 < nPacks {
+				pk := &c.Scripts[sh.SrcP][lateAt+1]
+				for pi := range c.Colls[lateColl].Parts {
+					pk.After = append(pk.After, stepDep(addPartStep[[2]int{lateColl, pi}]))
+				}
 			}
 		}
 	}
